@@ -41,16 +41,17 @@ type scenario struct {
 const nKeys = 48
 
 type stats struct {
-	mu      sync.Mutex
-	start   map[*sopx.Event]time.Time
-	maxCall map[string]time.Duration
-	calls   map[string]int
-	handles map[string]int
-	rounds  map[string]int
+	mu       sync.Mutex
+	start    map[*sopx.Event]time.Time
+	maxCall  map[string]time.Duration
+	calls    map[string]int
+	handles  map[string]int
+	rounds   map[string]int
+	lockKeys map[string]map[string]bool // node lock key names requested, per transaction
 }
 
 func newStats() *stats {
-	return &stats{start: map[*sopx.Event]time.Time{}, maxCall: map[string]time.Duration{}, calls: map[string]int{}, handles: map[string]int{}, rounds: map[string]int{}}
+	return &stats{start: map[*sopx.Event]time.Time{}, maxCall: map[string]time.Duration{}, calls: map[string]int{}, handles: map[string]int{}, rounds: map[string]int{}, lockKeys: map[string]map[string]bool{}}
 }
 
 // model constants (Gen/TimeoutConsts.v: unit 20 ms, multiplier 1..4; fibonacci total 12)
@@ -137,6 +138,14 @@ func runScenario(res *hx.Result, sc scenario, idx int) {
 		}
 		if ev.Iface == "l2" && ev.Method == "Lock" {
 			st.rounds[ev.Txn]++
+		}
+		if ev.Iface == "l2" && (ev.Method == "Lock" || ev.Method == "DualLock") {
+			if st.lockKeys[ev.Txn] == nil {
+				st.lockKeys[ev.Txn] = map[string]bool{}
+			}
+			for _, n := range ev.Names {
+				st.lockKeys[ev.Txn][n] = true
+			}
 		}
 		st.mu.Unlock()
 	}
@@ -267,6 +276,28 @@ func runScenario(res *hx.Result, sc scenario, idx int) {
 		time.Sleep(time.Duration(sc.HolderMaxMs)*time.Millisecond + 100*time.Millisecond)
 	}
 	released := true
+	if sc.Kind != "killed" {
+		// direct probe of the lock table: every node lock key a writer asked for is free once all writers
+		// have returned (successful ones unlock in phase 2) and the stalled holder has finished
+		st.mu.Lock()
+		var names []string
+		for lbl, m := range st.lockKeys {
+			if lbl == "F" {
+				continue
+			}
+			for n := range m {
+				names = append(names, n)
+			}
+		}
+		st.mu.Unlock()
+		for _, n := range names {
+			if locked, _ := e.Cache.IsLockedByOthers(ctx, []string{n}); locked {
+				released = false
+				res.Fail("node-locks-left-behind:"+sc.Kind, fmt.Sprintf("lock key %s is still held after every transaction returned (any writer failed=%v)", n, anyErr), sc)
+				break
+			}
+		}
+	}
 	if sc.Kind == "killed" {
 		// the dead holder's half-committed handles stay in the registry (recovering them is property C09's
 		// subject, not a lock): a follow-up on the same nodes cannot tell that apart from a leftover lock
